@@ -64,19 +64,21 @@ MC = {
                      "cfg": dec_cfg("TokNOISEH", "FirstNOISE", q(5, 6), ["TypeOK", "MatcherExact", "Resync", "Tiles", "BoundaryFresh"])},
     # refinement: every behaviour of the decoder specification is accepted by the user-level contract (Contract.tla)
     "contract_hist": {"module": "MC_Contract",
-                      "cfg": dec_cfg("TokHIST", "FirstHIST", q(3, 4), ["Refines", "SameBoundary", "OpenAgrees"], caps="{0, 1, 2, 1073741824}", spec="CSpec")},
+                      "cfg": dec_cfg("TokHIST", "FirstHIST", q(3, 4), ["Refines", "SameBoundary", "OpenAgrees", "ZeroCacheInv"], caps="{0, 1, 2, 1073741824}", spec="CSpec")},
     "contract_adv": {"module": "MC_Contract",
-                     "cfg": dec_cfg("TokADV", "FirstADV", q(4, 5), ["Refines", "SameBoundary", "OpenAgrees"], spec="CSpec")},
+                     "cfg": dec_cfg("TokADV", "FirstADV", q(4, 5), ["Refines", "SameBoundary", "OpenAgrees", "ZeroCacheInv"], spec="CSpec")},
     "contract_noise": {"module": "MC_Contract",
-                       "cfg": dec_cfg("TokNOISEH", "FirstNOISE", q(5, 6), ["Refines", "SameBoundary", "OpenAgrees"], spec="CSpec")},
+                       "cfg": dec_cfg("TokNOISEH", "FirstNOISE", q(5, 6), ["Refines", "SameBoundary", "OpenAgrees", "ZeroCacheInv"], spec="CSpec")},
     "contract_pay": {"module": "MC_Contract",
-                     "cfg": dec_cfg("TokPAY", "FirstPAY", 2, ["Refines", "SameBoundary", "OpenAgrees"], paylen=q(4, 6), spec="CSpec")},
+                     "cfg": dec_cfg("TokPAY", "FirstPAY", 2, ["Refines", "SameBoundary", "OpenAgrees", "ZeroCacheInv"], paylen=q(4, 6), spec="CSpec")},
     "contract_cap": {"module": "MC_Contract",
-                     "cfg": dec_cfg("TokCAP", "FirstCAP", 2, ["Refines", "SameBoundary", "OpenAgrees"], caps=q("CapsQuick", "CapsThorough"), paylen=q(4, 6), spec="CSpec")},
+                     "cfg": dec_cfg("TokCAP", "FirstCAP", 2, ["Refines", "SameBoundary", "OpenAgrees", "ZeroCacheInv"], caps=q("CapsQuick", "CapsThorough"), paylen=q(4, 6), spec="CSpec")},
     # deep random walks: 12 tokens incl. finalize / reset anywhere, five capacities, judged by the contract at every step
     "sim_contract": {"module": "MC_Contract", "workers": 8, "simulate": True,
                      "extra": lambda tier: ["-simulate", "num=%d" % (400 if tier == "thorough" else 40), "-depth", "14"],
-                     "cfg": dec_cfg("TokHIST", "FirstHIST", 12, ["Refines", "SameBoundary", "OpenAgrees"], caps="{0, 1, 2, 5, 1073741824}", spec="CSpec")},
+                     "cfg": dec_cfg("TokHIST", "FirstHIST", 12, ["Refines", "SameBoundary", "OpenAgrees", "ZeroCacheInv"], caps="{0, 1, 2, 5, 1073741824}", spec="CSpec")},
+    "contract_zeros": {"module": "MC_Contract",
+                       "cfg": dec_cfg("TokZEROS", "FirstZEROS", q(7, 8), ["TypeOK", "Refines", "SameBoundary", "OpenAgrees", "ZeroCacheInv", "Sound", "Tiles", "CapRespect"], caps="{2, 5, 1073741824}", spec="CSpec")},
     "neg_contract_drop": {"module": "MC_Contract", "expect": "Refines",
                           "cfg": dec_cfg("TokNOISE", "FirstNOISE", 6, ["Refines"], fallback="drop", spec="CSpec")},
     "roundtrip_pay": {"module": "MC_Decoder",
@@ -133,6 +135,15 @@ PROOFS = {
                               ("step", ["--cinit=CInit", "--init=IndInit", "--inv=IndInv", "--length=1"]),
                               ("step_truncate_set", ["--cinit=CInitSet", "--init=IndInit", "--inv=IndInv", "--length=1"])],
                      "expect_fail": ["step_truncate_set"]},
+    "zero_cache": {"module": "ZeroCache",
+                   "claim": "for every data length and capacity: inside a transmission zc = min(trailing zeros, 4) and buffer length + zc = data length; out-of-memory only when the bytes that had to be "
+                            "stored exceed the capacity, leaving the decoder clean; an end sequence with pad count p <= 3 delivers exactly n - p bytes iff p <= trailing zeros and n - p <= cap; "
+                            "keeping the zero cache across the out-of-memory reset, or withholding a fifth zero, fails the induction step",
+                   "runs": [("base", ["--cinit=CInit", "--init=Init", "--inv=IndInv", "--length=0"]),
+                            ("step", ["--cinit=CInit", "--init=IndInit", "--inv=IndInv", "--length=1"]),
+                            ("step_phantom", ["--cinit=CInitPhantom", "--init=IndInit", "--inv=IndInv", "--length=1"]),
+                            ("step_five", ["--cinit=CInitFive", "--init=IndInit", "--inv=IndInv", "--length=1"])],
+                   "expect_fail": ["step_phantom", "step_five"]},
     "stream_abs": {"module": "StreamAbs",
                    "claim": "for every input length n an abstraction of the streaming parser (every successful sub-parse consumes >= 1 byte, any sub-parse may fail) yields at most n + 1 items and nothing after "
                             "an error or None; with the countdown kept across an error (as found, D6) the induction step fails",
@@ -206,7 +217,8 @@ PROPS = {
                 steps=[{"cmd": "c15", "judge": "J_C15"}]),
     "C16": dict(T("payloads over {1b,00,55} up to length 6/8 + crafted tails + random, x every capacity 0..|m|+1 (<= 48), via Decoder<ArrayBuf<N>>, decode_streaming::<ArrayBuf<N>>, "
                   "SmlReader::with_static_buffer::<N>, each followed by an empty frame; 8 KiB default buffer with 8191/8192/8193-byte payloads"),
-                mc={"quick": ["capacity_pay", "contract_cap"], "thorough": ["capacity_pay", "contract_cap"]},
+                mc={"quick": ["capacity_pay", "contract_cap", "contract_zeros"], "thorough": ["capacity_pay", "contract_cap", "contract_zeros"]},
+                proofs=["zero_cache"],
                 steps=[{"cmd": "c16", "judge": "J_C16"}]),
     "C03": dict(P("valid files from the harness generator (all value types, integer widths 1-8, optional masks, multi-byte / non-minimal TLFs, list lengths across 15/16, both time encodings, "
                   "1-byte checksum fields) with the generator's intended content, plus the corpus payloads and their message-boundary truncations; judged against SmlGrammar.ParseFile"),
